@@ -30,7 +30,14 @@ func TestCheck(t *testing.T) {
 			"WAL segment removal (LSM flush, watchdog) is out of scope here: C36",
 		},
 	}
-	pbt.Add(s, &pbt.Spec[Case]{Name: "bare", Gen: genCase("bare"), Run: runCase, Quick: 1000, Thorough: 40000, Shards: 8})
-	pbt.Add(s, &pbt.Spec[Case]{Name: "db", Gen: genCase("db"), Run: runCase, Quick: 100, Thorough: 4000, Shards: 8})
+	// While C21-R8 is open only Ready-boundary images are judged (cheap cases); once it is
+	// fixed every vfs operation and torn write inside a Ready is a judged crash point and a
+	// case costs about ten times as much, so the case counts shrink to keep the tier budget.
+	bareQ, dbQ := 1000, 100
+	if !pbt.Open("C21-R8") {
+		bareQ, dbQ = 300, 24
+	}
+	pbt.Add(s, &pbt.Spec[Case]{Name: "bare", Gen: genCase("bare"), Run: runCase, Quick: bareQ, Thorough: 8 * bareQ, Shards: 8})
+	pbt.Add(s, &pbt.Spec[Case]{Name: "db", Gen: genCase("db"), Run: runCase, Quick: dbQ, Thorough: 6 * dbQ, Shards: 8})
 	s.Main(t)
 }
